@@ -241,8 +241,12 @@ package authz
 // contract for now: assumed, listed as such.
 //@ func loadWellKnownConfig
 //@   requires nonnil: client != nil && cfg != nil
+//@   requires unlocked: !held(oidc.wellKnownConfigsMu)
 //@   #allocates
-//@   modifies heap oidcv1.OIDCConfig.AuthorizationUri, heap oidcv1.OIDCConfig.TokenUri, heap oidcv1.OIDCConfig.JwksConfig, heap oidcv1.OIDCConfig_JwksFetcherConfig.JwksUri, heap oidcv1.LogoutConfig.RedirectUri
+//@   modifies heap oidcv1.OIDCConfig.AuthorizationUri, heap oidcv1.OIDCConfig.TokenUri, heap oidcv1.OIDCConfig.JwksConfig, heap oidcv1.OIDCConfig_JwksFetcherConfig.JwksUri, heap oidcv1.LogoutConfig.RedirectUri, mapof(deref(oidc.wellKnownConfigs)), ghost $held[oidc.wellKnownConfigsMu]
+//@   ensures  unlocked: !held(oidc.wellKnownConfigsMu)
+//@   ensures  discovered: result == nil && cfg.GetConfigurationUri() != "" ==> cfg.AuthorizationUri == JStr(WKDoc(cfg.GetConfigurationUri()), "authorization_endpoint") && cfg.TokenUri == JStr(WKDoc(cfg.GetConfigurationUri()), "token_endpoint") && cfg.GetJwksFetcher() != nil && cfg.GetJwksFetcher().JwksUri == JStr(WKDoc(cfg.GetConfigurationUri()), "jwks_uri")
+//@   ensures  undiscovered: cfg.GetConfigurationUri() == "" ==> result == nil && cfg.AuthorizationUri == old(cfg.AuthorizationUri) && cfg.TokenUri == old(cfg.TokenUri) && cfg.JwksConfig == old(cfg.JwksConfig)
 
 // The handler built for a check is fully wired (HandlerReady) and is the handler of THIS filter's
 // configuration, with the HTTP client NewHTTPClient built for it (C20). `assumes wired` is what
@@ -254,7 +258,9 @@ package authz
 //@   assumes wired: cfg != nil && tlsPool != nil && jwks != nil && sessions != nil && sessionGen != nil && StoreFor(sessions, cfg) != nil && UrlParses(cfg.GetCallbackUri()) && sessions.pay <= watermark() && jwks.pay <= watermark() && sessionGen.pay <= watermark() && tlsPool.pay <= watermark()
 //@   assumes default_transport: istype(deref(nethttp.DefaultTransport), *nethttp.Transport) && deref(nethttp.DefaultTransport).(*nethttp.Transport) != nil
 //@   #allocates
-//@   modifies heap oidcv1.OIDCConfig.AuthorizationUri, heap oidcv1.OIDCConfig.TokenUri, heap oidcv1.OIDCConfig.JwksConfig, heap oidcv1.OIDCConfig_JwksFetcherConfig.JwksUri, heap oidcv1.LogoutConfig.RedirectUri, ghost PoolAdded, ghost HashIn
+//@   modifies heap oidcv1.OIDCConfig.AuthorizationUri, heap oidcv1.OIDCConfig.TokenUri, heap oidcv1.OIDCConfig.JwksConfig, heap oidcv1.OIDCConfig_JwksFetcherConfig.JwksUri, heap oidcv1.LogoutConfig.RedirectUri, ghost PoolAdded, ghost HashIn, mapof(deref(oidc.wellKnownConfigs)), ghost $held[oidc.wellKnownConfigsMu]
+//@   requires unlocked: !held(oidc.wellKnownConfigsMu)
+//@   ensures  unlocked: !held(oidc.wellKnownConfigsMu)
 //@   ensures  err_nil: (result1 != nil) == (result0 == nil)
 //@   ensures  handler: result1 == nil ==> HandlerCfg(result0) == cfg && HandlerReady(result0)
 //@   ensures  client: result1 == nil ==> istype(result0, *oidcHandler) && fresh(result0.(*oidcHandler)) && result0.(*oidcHandler).httpClient != nil && result0.(*oidcHandler).sessions == sessions && result0.(*oidcHandler).jwks == jwks && result0.(*oidcHandler).sessionGen == sessionGen
